@@ -74,7 +74,9 @@ def facts_for(cfg="default", repo=None, verbose=False, target_dir=None, out_root
         return out
     target = target_dir or os.path.join(CACHE, "target-" + cfg)
     os.makedirs(target, exist_ok=True)
-    lock = open(os.path.join(CACHE, "lock-" + cfg), "w")
+    # one extraction at a time per TARGET DIRECTORY (cargo's own unit of exclusion): scratch copies that bring their own
+    # target dir (self-test workers) extract in parallel
+    lock = open(os.path.join(CACHE, "lock-" + (cfg if not target_dir else os.path.basename(os.path.normpath(target_dir)))), "w")
     fcntl.flock(lock, fcntl.LOCK_EX)
     try:
         if os.path.exists(out):
